@@ -654,6 +654,13 @@ static int _open_seekable2(OggVorbis_File *vf){
   vf->pcmlengths[1]-=pcmoffset;
   if(vf->pcmlengths[1]<0)vf->pcmlengths[1]=0;
 
+  /* fetching the headers of later links left us in STREAMSET; go back
+     to OPENED so that the raw seek below looks up the link of the page
+     it lands on and recognizes the first page of the first link as such
+     (otherwise a first link whose audio fits on a single page is
+     mistaken for a bare last page and its packets are discarded) */
+  vf->ready_state=OPENED;
+
   return(ov_raw_seek(vf,dataoffset));
 }
 
